@@ -66,9 +66,13 @@ fn gen_value_refs(rng: &mut Rng, k: usize) -> Pair {
     }
     let t = spell(rng, "Tgt", k, true);
     let nn = spell(rng, "Named", k, true);
-    let form = rng.below(5);
+    let form = rng.below(8);
     let (s, e) = match form {
         0 => (format!("{t} ::= INTEGER (0..{})\n", names[0]), format!("{t} ::= INTEGER (0..{lit})\n")),
+        // the reference is the only one of the definition and stands in a later operand / in the lower bound only
+        5 => (format!("{t} ::= INTEGER (0..3 | {})\n", names[0]), format!("{t} ::= INTEGER (0..3 | {lit})\n")),
+        6 => (format!("{t} ::= OCTET STRING (SIZE (1..2 | {}))\n", names[0]), format!("{t} ::= OCTET STRING (SIZE (1..2 | {lit}))\n")),
+        7 => (format!("{t} ::= INTEGER ({}..1000)\n", names[0]), format!("{t} ::= INTEGER ({lit}..1000)\n")),
         1 => (format!("{t} ::= OCTET STRING (SIZE (1..{}))\n", names[0]), format!("{t} ::= OCTET STRING (SIZE (1..{lit}))\n")),
         2 => {
             let decoy = spell(rng, "Decoy", k, true);
